@@ -33,7 +33,7 @@ CLAIMED = {
     'C06': dict(assumptions=[GAP, 'u32 exhaustion of the request id counter is a precondition (lcid < u32::MAX), not handled by the code',
                              'prepare()/ExecutionCtx::new collections are external; the id plumbing prev_data.lcid -> ctx -> envelope is what is proved']),
     'C07': dict(assumptions=[GAP]),
-    'C08': dict(assumptions=[GAP, 'par/fold re-positioning over whole traces is not covered']),
+    'C08': dict(assumptions=[GAP, 'order-independence of the structural states is covered as: par sizes and fold lore are functions of the NEW trace positions only (ParFSM / FoldFSM / builders), and the position maps link each merged stream value to the state consumed from that very trace; par/fold re-positioning over whole traces is not covered']),
     'C09': dict(assumptions=[GAP, 'whole-trace multiset preservation over par/fold repositioning is not covered; the Left-end restore of a par is deliberately unconstrained (F10)']),
     'C10': dict(assumptions=[GAP, 'that the result trace only grows between FSM calls (ghost n0 <= n1 <= n2, monotone positions) is assumed; the fold call order is no longer assumed (F13 repaired: out-of-order calls are errors)']),
     'C11': dict(assumptions=[GAP, 'thin: canon join laws only; nothing history-level']),
